@@ -85,8 +85,11 @@ Section Queries.
                | Ok cwd' => path_queries follow cwd' (fst (strip_scheme_prefix uri))
                | Err _ => []
                end
-    | SDir => match chdir root fuel cwd (skipn (length s_dir_colon) uri) with
-              | Ok cwd' => path_queries follow cwd' s_dot
+    | SDir => match enter_base root fuel cwd bp with
+              | Ok cwd0 => match chdir root fuel cwd0 (skipn (length s_dir_colon) uri) with
+                           | Ok cwd' => path_queries follow cwd' s_dot
+                           | Err _ => []
+                           end
               | Err _ => []
               end
     | SOstree => []
